@@ -334,6 +334,7 @@ func init() {
 			}
 			st.locks2()[k] = 0
 			st.progress()
+			st.yield() // (after a release too: what follows may race with the next holder)
 			return nil
 		},
 		"(*sync.RWMutex).Lock": func(st *State, _ *frame, _ *ssa.Function, a []Value) Value {
@@ -355,6 +356,7 @@ func init() {
 			}
 			st.locks2()[k] = 0
 			st.progress()
+			st.yield() // (after a release too: what follows may race with the next holder)
 			return nil
 		},
 		"(*sync.RWMutex).RLock": func(st *State, _ *frame, _ *ssa.Function, a []Value) Value {
@@ -376,6 +378,7 @@ func init() {
 			}
 			st.locks2()[k] = s - 1
 			st.progress()
+			st.yield() // (after a release too: what follows may race with the next holder)
 			return nil
 		},
 		"(*sync.Once).Do": func(st *State, caller *frame, _ *ssa.Function, a []Value) Value {
